@@ -328,18 +328,26 @@ def gen_cache(facts):
     from chameleon.template import BaseTemplate
     want = BaseTemplate.digest(t0, probe_body, tuple(sorted(bd)))        # the part of the key that stands for the source
     mode = 'unknown'
+    layout = 'unknown'
     from chameleon.template import get_pkg_digest
+    cname = type(t0).__name__.encode('utf-8')
+    layouts = {'body-class': lambda b: [b, cname], 'class-nul-body': lambda b: [cname + b'\0', b], 'class-body': lambda b: [cname, b],
+               'body-nul-class': lambda b: [b, b'\0' + cname]}
     for cand in ('strict', 'ignore', 'replace', 'surrogatepass', 'backslashreplace', 'xmlcharrefreplace', 'namereplace'):
-        try:
-            sha = get_pkg_digest()
-            sha.update(probe_body.encode('utf-8', cand))
-            sha.update(type(t0).__name__.encode('utf-8'))
-            if sha.hexdigest() == want:
-                mode = cand
-                break
-        except Exception:
-            continue
+        for lname, parts in layouts.items():
+            try:
+                sha = get_pkg_digest()
+                for part in parts(probe_body.encode('utf-8', cand)):
+                    sha.update(part)
+                if sha.hexdigest() == want:
+                    mode, layout = cand, lname
+                    break
+            except Exception:
+                continue
+        if mode != 'unknown':
+            break
     facts['digest_body_errors'] = mode
+    facts['digest_layout'] = layout
     facts['cache_unsound_value_pairs'] = unsound
     facts['cache_keyed'] = keyed
     facts['cache_influencing'] = infl
@@ -351,7 +359,9 @@ def gen_cache(facts):
             '/-- pairs of option values that give different code under the same key (observed; expected: those of D-15b only) -/',
             'def cacheUnsoundValuePairs : List String := ' + lean_strs(unsound),
             '/-- the `errors` mode of `str.encode` that reproduces `digest` on a body with a lone surrogate (observed) -/',
-            'def digestBodyErrors : String := ' + lean_str(mode)]
+            'def digestBodyErrors : String := ' + lean_str(mode),
+            '/-- how `digest` lays out the class name and the source in the hashed bytes (observed by recomputing the digest) -/',
+            'def digestLayout : String := ' + lean_str(layout)]
 
 
 def gen_ties(facts):
